@@ -182,11 +182,18 @@ inductive Lbl
   | exit
   deriving DecidableEq, Repr
 
+def Item.task? : Item → Option Task
+  | .task t => some t
+  | .marker => none
+
+/-- the reclaim tasks among a list of items, in order -/
+def tasksOf (l : List Item) : List Task := l.filterMap Item.task?
+
 /-- one callback invocation of `consume_reclaim_task` on a popped range:
 (tasks appended, tasks skipped behind a marker, marker seen) -/
 def absorb : List Item → List Task × List Task × Bool
   | [] => ([], [], false)
-  | .marker :: rest => ([], rest.filterMap (fun | .task t => some t | .marker => none), true)
+  | .marker :: rest => ([], tasksOf rest, true)
   | .task t :: rest => let r := absorb rest; (t :: r.1, r.2.1, r.2.2)
 
 def setPublished (cells : List (Item × Bool)) (i : Nat) : List (Item × Bool) :=
@@ -335,6 +342,14 @@ def step (c : Cfg) (s : State) : Lbl → Option State
 
 /-- Any enabled action of any actor: all interleavings, any number of clients, slots, retirements. -/
 def Step (c : Cfg) (s s' : State) : Prop := ∃ l, step c s l = some s'
+
+/-- every ticket ever taken, in ticket order (ticket `k` is element `k`) -/
+def State.allItems (s : State) : List Item := s.popped ++ s.cells.map (·.1)
+
+def Inv.task (i : Inv) : Task := ⟨i.id, i.e⟩
+
+/-- ids of the reclaimers invoked so far, in invocation order -/
+def State.invoked (s : State) : List Nat := s.log.map (·.id)
 
 /-- sleep duration of the pass that is about to end (what `usleep` is called with), if it sleeps -/
 def passSleep (c : Cfg) (s : State) : Option Nat :=
